@@ -164,14 +164,18 @@ def failFee (P : Params) (o : Oracle) (s : State) (t : TxIn) (code : Nat) : M Ou
           | .error e => throw e
           | .ok paid => pure { code := code, moves := paid.moves, tags := [("tx.fail_fee", toString paid.amount)] }
 
-/-- The ticker price burnt after a successful CreateCoin / CreateToken (converted like the price). -/
+/-- The ticker price burnt after a successful CreateCoin / CreateToken (converted like the price).  The transaction has already
+    been executed at this point, so nothing here rejects it: without a positive ticker fee (zero ticker price, zero gas price, or a
+    conversion from the table coin that is not possible) the burn is skipped. -/
 def tickerBurn (s : State) (t : TxIn) : M (List Move × List (String × String)) :=
   if t.typ == 5 || t.typ == 30 then
-    match toBase s ((t.gasPrice : Int) * tickerPrice s (t.str "d.Symbol")) with
+    let amount := (t.gasPrice : Int) * tickerPrice s (t.str "d.Symbol")
+    if amount ≤ 0 then pure ([], []) else
+    match toBase s amount with
     | .error e => throw e
-    | .ok (.error _) => throw (.panic "ticker price conversion failed after Run changed the state")
+    | .ok (.error _) => pure ([], [])
     | .ok (.ok v) =>
-      if v ≤ 0 then throw (.panic "ticker price not positive after Run changed the state")
+      if v ≤ 0 then pure ([], [])
       else pure ([.burnTicker v], [("tx.burned_for_symbol", toString v)])
   else pure ([], [])
 
@@ -197,6 +201,7 @@ def successOutcome (s : State) (t : TxIn) (r : Outcome) : M Outcome :=
     if burn.any Move.isSetNonce then throw (.panic "model: ticker burn touched a nonce")
     else if !((successMoves t r burn).all (Move.debitOk t.sender t.issuer)) then throw (.panic "model: unauthorised debit in a handler")
     else if r.moves.any Move.isSetNonce then throw (.panic "model: handler touched a nonce")
+    else if !(freshIdsOk s (successMoves t r burn)) then throw (.panic "model: new coin without the next coin id")
     else pure { code := 0, moves := successMoves t r burn, tags := r.tags ++ btags }
 
 /-- Failure path: the failure fee (or nothing), never a success code. -/
